@@ -382,11 +382,12 @@ func zz4LatestHarness(tampered bool) {
 		o.nonGittuf = true
 		opts = append(opts, ForNonGittufReference())
 	}
-	if verif.Bool("opt.isref") {
+	fewOpts := tampered && verif.Bound("tampered.fewopts", 1, 0) == 1 // quick tier: kind filters are only explored on intact logs
+	if !fewOpts && verif.Bool("opt.isref") {
 		o.isRefEntry = true
 		opts = append(opts, IsReferenceEntry())
 	}
-	if verif.Bool("opt.prop") {
+	if !fewOpts && verif.Bool("opt.prop") {
 		o.propRepo = verif.PickStr(verif.Choice("opt.propidx", len(zz4Ups)), zz4Ups...)
 		opts = append(opts, IsPropagationEntryForRepository(o.propRepo))
 	}
